@@ -11,6 +11,18 @@ C44 driver.  Requests:
       -> flat tree, sorted by path
   graph <parents of commit 1>;<parents of commit 2>;…   (parents = positions joined by `.`, `-` = none, 0 = ghost)
       -> `<from|~>:<merges joined by '.'|->` joined by `;`
+  igraph <parents …>   (same encoding)
+      -> the parents of the revisions `importAll (exportAll h)` creates: `<positions joined by '.'|->` joined by `;`,
+         or `E:unknown-mark`
+  zone <offset in seconds>        -> the `+HHMM` field the exporter writes
+  pzone <+HHMM>                   -> the offset in seconds the importer reads
+  ref <hex bytes>                 -> `T` / `F`: `check_ref_format`
+  xtags <plain|rich> <tags>       tags = `<name hex>:<export position, 0 = not exported>` joined by `,` (`-` = none)
+      -> the reset commands `<ref hex>:<mark>`, sorted, joined by `,`
+  tags <plain|rich> <n> <tags>    -> the tag table after importing them: `<name hex>:<position>` sorted, joined by `,`
+  split <committer, hex of UTF-8> -> `<name hex>|<email hex>` as `_get_name_email` splits it, `other` = the pattern does not match
+  pwho <line after `committer `, hex> -> `<name hex>|<email hex>|<date hex>` as the parser reads it, `nomatch`
+  who <T|F: an empty name is joined without the blank> <committer hex> <date hex>  -> the committer after export + import (hex), `other` / `nomatch`
 -/
 namespace BreezyVerif.C44
 
@@ -54,6 +66,38 @@ def parseParents (s : String) : Option (List (List Nat)) :=
   if s == "-" then some [] else (s.splitOn ";").mapM fun c =>
     if c == "-" then some [] else (c.splitOn ".").mapM String.toNat?
 
+def pad2 (n : Nat) : String := if n < 10 then s!"0{n}" else toString n
+
+def showZone (z : Zone) : String := (if z.neg then "-" else "+") ++ pad2 z.hours ++ pad2 z.minutes
+
+/-- `parse_tz`: sign, `int(tz[1:-2])`, `int(tz[-2:])` -/
+def readZone (s : String) : Option Zone :=
+  match s.toList with
+  | sign :: rest =>
+    if sign != '+' && sign != '-' then none else
+    if rest.length < 3 then none else do
+      let h ← (String.ofList (rest.take (rest.length - 2))).toNat?
+      let m ← (String.ofList (rest.drop (rest.length - 2))).toNat?
+      pure { neg := sign == '-', hours := h, minutes := m }
+  | [] => none
+
+def parseTags (s : String) : Option (List Tag) :=
+  if s == "-" then some [] else (s.splitOn ",").mapM fun e =>
+    match e.splitOn ":" with
+    | [n, p] => do pure { name := ← fromHex n, pos := ← p.toNat? }
+    | _ => none
+
+/-- `<hex>:<n>` entries, sorted as strings -/
+def showPairs (l : List (Bytes × Nat)) : String :=
+  if l.isEmpty then "-" else
+    ",".intercalate ((l.map fun e => s!"{toHex e.1}:{e.2}").mergeSort fun a b => decide (a ≤ b))
+
+def strOfHex (s : String) : Option Str := do
+  let b ← fromHex s
+  (String.fromUTF8? (ByteArray.mk b.toArray)).map String.toList
+
+def hexOfStr (s : Str) : String := toHex (String.ofList s).toUTF8.toList
+
 def handle : List String → String
   | ["cmds", "plain", o, n] =>
     match parseTree o, parseTree n with
@@ -78,6 +122,61 @@ def handle : List String → String
         s!"{f}:{ms}"
       if out.isEmpty then "-" else ";".intercalate out
     | none => "bad-op"
+  | ["igraph", ps] =>
+    match parseParents ps with
+    | some ps =>
+      let h : List Commit := ps.map fun p => ⟨p, [], 0⟩
+      match importAll (exportAll h) with
+      | .ok rs =>
+        let out := rs.map fun r => if r.parents.isEmpty then "-" else ".".intercalate (r.parents.map toString)
+        if out.isEmpty then "-" else ";".intercalate out
+      | .error _ => "E:unknown-mark"
+    | none => "bad-op"
+  | ["zone", off] =>
+    match off.toInt? with
+    | some o => showZone (formatZone o)
+    | none => "bad-op"
+  | ["pzone", z] =>
+    match readZone z with
+    | some z => toString (parseZone z)
+    | none => "bad-op"
+  | ["ref", r] =>
+    match fromHex r with
+    | some r => showBool (validRef r)
+    | none => "bad-op"
+  | ["split", u] =>
+    match strOfHex u with
+    | some u =>
+      (match splitCommitter u with
+        | some (n, e) => s!"{hexOfStr n}|{hexOfStr e}"
+        | none => "other")
+    | none => "bad-op"
+  | ["pwho", l] =>
+    match strOfHex l with
+    | some l =>
+      (match parseWho l with
+        | some (n, e, d) => s!"{hexOfStr n}|{hexOfStr e}|{hexOfStr d}"
+        | none => "nomatch")
+    | none => "bad-op"
+  | ["who", v, u, d] =>
+    match parseBool v, strOfHex u, strOfHex d with
+    | some bare, some u, some d =>
+      (match splitCommitter u with
+        | none => "other"
+        | some who =>
+          match parseWho (formatWho who d) with
+          | some (n, e, _) => hexOfStr (joinWho bare n e)
+          | none => "nomatch")
+    | _, _, _ => "bad-op"
+  | ["xtags", fmt, ts] =>
+    match (if fmt == "plain" then some true else if fmt == "rich" then some false else none), parseTags ts with
+    | some plain, some ts => showPairs (exportTags plain ts)
+    | _, _ => "bad-op"
+  | ["tags", fmt, n, ts] =>
+    match (if fmt == "plain" then some true else if fmt == "rich" then some false else none), n.toNat?, parseTags ts with
+    | some plain, some n, some ts =>
+      showPairs (importTags n (exportTags plain ts))
+    | _, _, _ => "bad-op"
   | _ => "bad-op"
 
 end BreezyVerif.C44
